@@ -43,6 +43,7 @@ type Engine struct {
 	maxPaths   int
 	preemptBound int
 	noinit     bool
+	noHangCandidates bool
 	constHex   bool // hex.EncodeToString of opaque bytes is a constant string too (see -consthex)
 	detSched   bool
 	mapOrder   bool
@@ -897,6 +898,12 @@ func (e *Engine) jump(st *State, f *Frame, to *ssa.BasicBlock) {
 			e.maxLoop = f.loops[to]
 		}
 		if f.loops[to] > e.loopBound {
+			// the path is incomplete in any case. It is also a CANDIDATE for non-termination: recorded as a hang with the values
+			// of this path, so that the check replays it natively - reported only if the native run really never ends (the
+			// test watchdog fires); a loop that is merely longer than the bound finishes natively and is not reported.
+			if !e.noHangCandidates && (strings.HasPrefix(f.fn.String(), "(*"+e.modPrefix) || strings.HasPrefix(f.fn.String(), e.modPrefix)) && !strings.Contains(f.fn.Name(), "verif") {
+				e.violation(st, "deadlock", "loop exceeds the unwinding bound (possible non-termination) in "+f.fn.String())
+			}
 			e.kill("incomplete: unwinding bound at " + f.fn.String())
 		}
 	}
